@@ -18,7 +18,7 @@ from menpo.shape import DirectedGraph, PointCloud, Tree, UndirectedGraph
 
 STREAM = 48
 FAMILIES = ["pca_vec", "pca_obj", "gmrf_vec", "gmrf_obj"]
-GRAPHS = ["edgeless", "chain", "cycle", "random", "tree", "directed", "directed_any", "tree_high_root"]
+GRAPHS = ["edgeless", "chain", "cycle", "random", "tree", "directed", "directed_any", "tree_high_root", "directed_two_way"]
 
 
 def make_graph(kind, V, g):
@@ -55,6 +55,12 @@ def make_graph(kind, V, g):
         # a path rooted at the highest vertex: every edge runs from the higher to the lower index
         # (menpo's Tree constructor rejects e.g. a star with >= 4 children rooted there - its BFS-order check)
         return Tree.init_from_edges(np.array([[i + 1, i] for i in range(V - 2, -1, -1)]), V, root_vertex=V - 1)
+    if kind == "directed_two_way":
+        # a directed graph some of whose vertex pairs are joined in both directions (the oracle is the code's own
+        # batch constructor on the same graph, whatever it makes of such a pair)
+        e = {(i, j) for i in range(V) for j in range(i + 1, V) if g.rand() < 0.5} or {(0, 1)}
+        back = {(j, i) for k_, (i, j) in enumerate(sorted(e)) if k_ == 0 or g.rand() < 0.4}
+        return DirectedGraph.init_from_edges(np.array(sorted(e | back)), V)
     if kind == "directed":
         e = {(i, j) for i in range(V) for j in range(i + 1, V) if g.rand() < 0.5}  # i<j only: no antiparallel pairs
         if not e:
@@ -129,6 +135,8 @@ class Increments(Machine):
             cfg["n0"] = 2 * k + 3 + rng.randint(0, 6)
         if rng.random() < 0.15:
             cfg["verbose"] = 1      # the progress-reporting option (its output goes nowhere)
+        if fam == "pca_vec" and not cfg.get("intdata") and rng.random() < 0.15:
+            cfg["surplus"] = 1      # increments come as a list that holds more vectors than n_samples says are to be used
         if fam == "pca_vec" and rng.random() < 0.25:
             cfg["sibling"] = 1      # a second model built from this one's parts is incremented in between
         if fam.endswith("_obj") and rng.random() < 0.3:
@@ -363,6 +371,12 @@ class Increments(Machine):
                 if streamed:
                     feed, kw = self._feed(chunk, True)
                     self.model.increment(feed, **dict(kw, **kwv))
+                elif self.cfg.get("surplus") and self.fam == "pca_vec" and self.tmpl is None:
+                    # a list that goes on after the n_samples items that are to be used ("slice of the number of
+                    # requested samples", _data_to_matrix): the surplus is not part of the data
+                    extra = [self.X[(self.pos + s + j) % STREAM] * 3.0 + 1.0 for j in range(2)]
+                    self.model.increment([r.copy() for r in arg] + extra, n_samples=s, **kwv)
+                    self.ctx.probe("list_longer_than_n_samples")
                 else:
                     self.model.increment(arg, **kwv)
         except Exception as ex:
